@@ -17,6 +17,7 @@ static float sigval(const char *sig,long t,int k,long rate){
   if(!strcmp(sig,"impulse"))return (t%700==(350+13*k))?0.9f:0.f;
   if(!strcmp(sig,"denormal"))return 1e-40f*((t&1)?1.f:-1.f);
   if(!strcmp(sig,"over"))return 4.0f*sinf(2*M_PI*(300.0+70.0*k)*t/rate);
+  if(!strcmp(sig,"alt"))return ((t/rate)&1)? 0.02f*sinf(2*M_PI*(330.0+55.0*k)*t/rate) : 0.6f*noise()+0.2f*sinf(2*M_PI*(330.0+55.0*k)*t/rate);
   if(!strcmp(sig,"mix"))return 0.3f*sinf(2*M_PI*(300.0+170.0*k)*t/rate)+0.2f*noise()+((t%1500)==700?0.8f:0.f);
   return 0.f;
 }
